@@ -34,6 +34,9 @@ def one(d):
 
 
 def main():
+    import fcntl
+    lk = open("/tmp/verif-repo.lock", "w")
+    fcntl.flock(lk, fcntl.LOCK_EX)   # one user of /repo at a time
     targets = sys.argv[1:] or sorted(x[len(V + "/seeded/"):] for x in glob.glob(V + "/seeded/*/*") if os.path.isdir(x))
     for t in targets:
         d = os.path.join(V, "seeded", t)
